@@ -559,8 +559,11 @@ class HttpParser(abc.ABC, Generic[_MsgT]):
 
                     payload_state = PayloadState.PAYLOAD_COMPLETE
                     data = b""
-                    if isinstance(
-                        underlying_exc, (InvalidHeader, TransferEncodingError)
+                    # Framing is lost after any of these: whatever follows
+                    # cannot be read as the next message. (A content-coding
+                    # error leaves the framing intact.)
+                    if isinstance(underlying_exc, BadHttpMessage) and not isinstance(
+                        underlying_exc, ContentEncodingError
                     ):
                         raise
 
